@@ -86,6 +86,33 @@ def resolve_rule(ctx):
     # a result that fails its re-check (it vanished, or is no directory) is passed over: the walk over glob(3)'s results has no exit of
     # its own.  resolveWildcard turns a glob error into "no cgroup matches", and Ruleset::runOnce drops every instance that is not in
     # this tick's list - one cgroup removed at the wrong moment would cost all its siblings their windows, pauses and suspended chains.
+    # the match set is glob(3)'s shell-glob semantics: the flags are NOSORT | BRACE | ERR (+ ONLYDIR for directories) and nothing that changes
+    # WHAT matches (GLOB_PERIOD lets `*` match a leading dot, GLOB_NOCHECK returns the pattern itself, GLOB_NOESCAPE / GLOB_TILDE change parsing)
+    for i in [x for x in gl.calls("glob") if plain(gl.nodes[x].get("callee") or "") in ("glob", "glob64") and len(gl.nodes[x].get("args", [])) >= 2]:
+        fa = gl.nodes[i]["args"][1]
+        fv = const_int(gl, fa)
+        if fv is None:
+            nm = gl.text(fa)
+            init_, v_ = local_init(gl, nm, must=False) if re.fullmatch(r"\w+", nm) else (None, None)
+            fv = const_int(gl, init_) if v_ is not None and init_ is not None and init_ >= 0 else None
+            ors = [const_int(gl, write_rhs(gl, w)) for w in local_writes(gl, nm, must=False)] if v_ is not None else [None]
+            if fv is not None and all(o is not None for o in ors) and all(gl.nodes[w].get("op") == "|=" for w in local_writes(gl, nm, must=False)):
+                for o in ors:
+                    fv |= o
+            else:
+                fv = None
+        BASE, ONLYDIR = 1 | 4 | 1024, 8192
+        if fv is None:
+            # a spelling the folder does not follow (a conditional expression, a helper): look for the semantic-changing flags by value instead
+            vals = {const_int(gl, x) for x in range(len(gl.nodes)) if gl.nodes[x].get("k") in ("bin", "ref", "lit")}
+            bad_bits = [v for v in vals if isinstance(v, int) and v in (128, 16, 64, 4096, 2048, 512)]      # PERIOD, NOCHECK, NOESCAPE, TILDE, NOMAGIC, ALTDIRFUNC
+            if not bad_bits:
+                ctx.broken("glob:flags-keep-shell-glob-semantics", "anchor", gl.loc(i), "the flags argument of glob(3) (%s) cannot be folded to a constant" % gl.text(fa)[:60])
+                continue
+        ctx.check(fv is not None and (fv | ONLYDIR) == (BASE | ONLYDIR), "glob:flags-keep-shell-glob-semantics", "call-site argument (folded constant)", gl.loc(i),
+                  "glob(3) is called with GLOB_NOSORT | GLOB_BRACE | GLOB_ERR (| GLOB_ONLYDIR)",
+                  "Fs::glob calls glob(3) with flags %s - not GLOB_NOSORT | GLOB_BRACE | GLOB_ERR (| GLOB_ONLYDIR): a flag that changes what a pattern matches "
+                  "(GLOB_PERIOD: `*` and `?` match a leading '.') makes resolveWildcard return directories the shell-glob pattern does not match" % (hex(fv) if fv is not None else "that cannot be folded"))
     # whatever Fs::glob answers, it has asked glob(3): no verdict about a pattern (too long, odd characters, ...) of its own in front.
     # resolveWildcard turns any error into 'no cgroup matches'.
     g3 = [i for i in gl.calls("glob") if plain(gl.nodes[i].get("callee") or "") in ("glob", "glob64") and gl.pos_of(i) is not None]
